@@ -116,6 +116,17 @@ def judge(case: dict, res: dict) -> list[tuple[str, str]]:
     props = set(sf.get("api_client", {}))
     if len(props) != len(per_client):
         fails.append(("apiclient-properties", f"APIClient exposes {sorted(props)} for clients {sorted(per_client)}"))
+    reach = sf.get("api_client_reach") or {}
+    import keyword
+    for pn, got in reach.items():
+        if isinstance(got, str) and got.startswith("ERROR"):
+            fails.append(("apiclient-unreachable", f"APIClient{'' if pn == '<construct>' else '.' + pn}: {got}"))
+        elif got not in per_client:
+            fails.append(("apiclient-unreachable", f"APIClient.{pn} is a {got}, not one of the tag clients {sorted(per_client)}"))
+        if pn != "<construct>" and (not pn.isidentifier() or keyword.iskeyword(pn)):
+            fails.append(("apiclient-property-name", f"APIClient property {pn!r} is not a usable identifier"))
+    if reach and "<construct>" not in reach and len(set(reach.values())) != len(reach):
+        fails.append(("apiclient-unreachable", f"two APIClient properties yield the same client class: {reach}"))
     for cname, meths in per_client.items():
         for n in meths:
             if not n.isidentifier():
